@@ -72,7 +72,7 @@ CLAIMED = {
    note="Sequences of <=3 (4) operations; Go's builtin map is modelled as an association list with symbolic key equality. The interval tree (draws from global math/rand, no native replay), 'few thousand operations' and key types other than integers are outside.",
    design="3 C51"),
  "C37": dict(
-   text="Lexer kernel: the real lexer.Lex and the whole token stream (Next() to EOF) on every byte string of <=2 (thorough 3) bytes - all byte values incl. invalid UTF-8 - alone and after fixed prefixes that put the lexer into its modes (string, string template, block comment, after a leading 0; thorough: line comment, fraction, arrow), plus every 3 (4) bytes >= 0x80 alone / in a line comment / string / block comment: no crash and no internal error, every token and the EOF position inside the input, tokens contiguous in order and covering the input (unless lexing stopped at an error token), lines match offsets, columns match offsets in one convention (bytes or characters) for the whole stream; and a pooled lexer that lexed another text before (6 texts leaving mode/bracket/position state behind) yields exactly the tokens of a fresh lexer.",
+   text="Lexer kernel: the real lexer.Lex and the whole token stream (Next() to EOF) on every byte string of <=2 (thorough 3) bytes - all byte values incl. invalid UTF-8 - alone and - with <=2 free bytes - after fixed prefixes that put the lexer into its modes (string, string template, block comment, after a leading 0; thorough: line comment, fraction, arrow), plus every 3 (4) bytes >= 0x80 alone / in a line comment / string / block comment: no crash and no internal error, every token and the EOF position inside the input, tokens contiguous in order and covering the input (unless lexing stopped at an error token), lines match offsets, columns match offsets in one convention (bytes or characters) for the whole stream; and a pooled lexer that lexed another text before (6 texts leaving mode/bracket/position state behind) yields exactly the tokens of a fresh lexer.",
    note="Part of C37: the lexer only; parser and checker totality/positions are outside (a symbolic AST is out of reach). Bounds: <=2 (3) free bytes per harness, prefixes listed in harness/C37/lexer.go; sync.Pool modelled as 'Get returns the last Put object, else New()'; unicode/utf8.DecodeRune runs from source. Two known findings (unterminated block comment content in no token; column drift after an empty string token), three defects fixed.",
    design="3 C37"),
  "C46": dict(
